@@ -181,7 +181,9 @@ def plan(tier, seed):
            (("B", "S"), (2, 0)), (("S", "V"), (0, 2)), (("S", "B"), (0, 3))]
     for k, (forms, lens) in enumerate(two):
         q = "quick" if (forms == ("S", "S") or k % 5 == seed % 5) else "thorough"
-        hs.append(gen(t, "MD", shape, forms, lens, "accept", q))
+        # the slice forms x[i, a..b] / x[a..b, j] / x[a..b, c..d] are the ones with offset arithmetic: always in quick
+        qa = "quick" if forms in (("S", "V"), ("V", "S"), ("V", "V")) else q
+        hs.append(gen(t, "MD", shape, forms, lens, "accept", qa))
         if forms != ("A", "A"):
             hs.append(gen(t, "MD", shape, forms, lens, "reject", q))
         # masks of the wrong length are the interesting reject cases
@@ -196,6 +198,9 @@ def plan(tier, seed):
     for h in hs:
         forms_ = h.key.split("/")[2]
         two_d = h.key.split("/")[0] in set(DISPATCH_2D.values())
+        if h.name == "c03_f64_md2x3_v2_v2_accept":
+            h.tier = "off"
+            h.off_reason = "x[[i..],[j..]] with two index vectors: out of 9 GB in the propositional reduction (measured 2026-09-24)"
         if "B" in forms_ and (h.domain == "accept" or two_d):
             h.tier = "off"
             h.off_reason = ("logical-mask read whose result length is the (symbolic) number of true bits: CBMC ran out of 9 GB in the "
